@@ -19,7 +19,8 @@ TOOL = 4
 
 
 class Sched:
-    def __init__(self, n, policy, seed=0, p=0.05, points=()):
+    def __init__(self, n, policy, seed=0, p=0.05, points=(), fnames=()):
+        self.fnames = frozenset(fnames)        # policy 'stepfn': hand the turn over at every line of these functions (lock-step through them)
         self.n = n
         self.policy = policy
         self.r = random.Random(seed)
@@ -55,6 +56,8 @@ class Sched:
             go = self.r.random() < self.p
         elif self.policy == 'sweep':
             go = self.events in self.points
+        elif self.policy == 'stepfn':
+            go = code.co_name in self.fnames
         else:
             go = False
         if not go:
